@@ -88,7 +88,8 @@ fn generated_case(ctx: &Ctx, ch: &mut Ch) -> Outcome {
         ["group of >= 2 definitions", "recursive definition", "mutually recursive definitions", "nested group", "group nested in a definition", "higher-order call", "type-level computation in an annotation", "type-level conditional", "polymorphic / dependent definition"].contains(f)
     });
     let budget = crate::checks::c02::step_budget(ctx.tier);
-    let (s, class): (S, &str) = match ch.pick(10) {
+    let pick = ch.pick(10);
+    let (s, class): (S, &str) = match if prog::perturbation_safe(&p) || pick < 7 { pick } else { 0 } {
         0..=3 => (p.s.clone(), "plain"),
         4..=6 => {
             let mut erased = 0;
